@@ -1,2 +1,180 @@
-(* placeholder until the proofs are in *)
-From PK Require Import NoCrash.Model NoCrash.Cases.
+(* C13 - well-formed requests never hit the server's internal-error path (never answer GENERAL_FAILURE).
+
+   Model: PK.NoCrash.Model.step (the 21 `_process_*` handlers of kmip/services/server/engine.py as guard sequences;
+   `Crash site` = a non-KmipError exception raised at `site`, which the engine answers with GENERAL_FAILURE).
+   The full-strength statement (DESIGN 6/C13) is refuted by the faithful model: the tree has internal-error sites that
+   well-formed requests reach (findings.d/C13.json).  What is proved instead:
+     no_crash_partial  : a well-formed request that does not hit the signature of a recorded finding does not crash
+                         (crypto engine total), i.e. the recorded findings are ALL the internal-error sources of the model;
+     crash_sites       : the same as an explicit per-operation list of sites;
+     crash_sites_observed : without the totality hypothesis the only further site is the crypto engine's own exception;
+     no_crash_clean_ops: twelve operations have no internal-error site at all (full-strength for them);
+   and each recorded signature has its `..._refuted` witness below (evaluated by vm_compute; a witness is stated through
+   the generated `defect` / `policy_unknown` tables so that it stays true on a repaired tree, where it degenerates to Done). *)
+From Coq Require Import ZArith List String Bool.
+From PKGen Require Import AttrRuleTable PieClasses.
+From PK Require Import NoCrash.Model NoCrash.Proofs.
+Import ListNotations.
+Open Scope string_scope.
+Open Scope list_scope.
+Open Scope Z_scope.
+
+(* the full-strength statement, kept visible; refuted below *)
+Definition no_crash_statement : Prop :=
+  forall v s cr it, supported_version v = true -> wf_store s -> wf_item it -> crypto_total cr -> step_crash v s cr it = false.
+
+Theorem no_crash_partial : forall v s cr it,
+  supported_version v = true -> wf_store s -> wf_item it -> crypto_total cr ->
+  known_crash v s cr it = false -> step_crash v s cr it = false.
+Proof. exact PK.NoCrash.Proofs.no_crash_partial. Qed.
+Print Assumptions no_crash_partial.
+
+Theorem crash_sites : forall v s cr it site,
+  supported_version v = true -> wf_store s -> wf_item it -> crypto_total cr ->
+  step v s cr it = Crash site -> mem_s site (op_sites (op_of it)) = true.
+Proof. exact PK.NoCrash.Proofs.crash_sites. Qed.
+Print Assumptions crash_sites.
+
+Theorem crash_sites_observed : forall v s cr it site,
+  supported_version v = true -> wf_store s -> wf_item it -> crypto_observed cr ->
+  step v s cr it = Crash site -> mem_s site (op_sites (op_of it)) = true \/ cr = CExc site.
+Proof. exact PK.NoCrash.Proofs.crash_sites_observed. Qed.
+Print Assumptions crash_sites_observed.
+
+Theorem no_crash_clean_ops : forall v s cr it,
+  supported_version v = true -> wf_store s -> wf_item it -> crypto_total cr -> clean_op it = true ->
+  step_crash v s cr it = false.
+Proof. exact PK.NoCrash.Proofs.no_crash_clean_ops. Qed.
+Print Assumptions no_crash_clean_ops.
+
+Theorem clean_ops_are : forall it, clean_op it = true <->
+  In (op_of it) ["CREATE"; "CREATE_KEY_PAIR"; "GET_ATTRIBUTE_LIST"; "ACTIVATE"; "REVOKE"; "DESTROY"; "QUERY"; "DISCOVER_VERSIONS";
+                 "ENCRYPT"; "DECRYPT"; "SIGN"; "SIGNATURE_VERIFY"].
+Proof. exact PK.NoCrash.Proofs.clean_ops_are. Qed.
+Print Assumptions clean_ops_are.
+
+(* every site of the per-operation lists is the signature of a finding recorded in findings.d/C13.json *)
+Theorem sites_are_recorded_findings : forallb (fun op => forallb (finding_listed op) (op_sites op)) all_ops = true.
+Proof. exact PK.NoCrash.Proofs.op_sites_listed. Qed.
+Print Assumptions sites_are_recorded_findings.
+
+Theorem sentinel_only_when_predicted : forall v s it,
+  reaches_crypto v s it = true <-> step v s CNotCalled it = Crash sentinel.
+Proof. exact PK.NoCrash.Proofs.sentinel_only_when_predicted. Qed.
+Print Assumptions sentinel_only_when_predicted.
+
+(* ------------------------------------------------------------------ the hypotheses are satisfiable by non-trivial states *)
+Definition key1 : sobj := Build_sobj 1 "SymmetricKey" 2 true (Some 2) 959 ["k1"] [] ["g0"] false (Some 1) (Some 3) (Some 128) false.
+Definition cert2 : sobj := Build_sobj 2 "X509Certificate" 1 true (Some 1) 0 ["c"] [] [] false None None None false.
+Definition opaque3 : sobj := Build_sobj 3 "OpaqueObject" 8 true None 0 [] [] [] false None None None false.
+Definition store0 : store := [key1; cert2; opaque3].
+Definition nm (n : string) : attr := Build_attr n None 0 "".
+
+Example hypotheses_satisfiable :
+  supported_version (1,2) = true /\ wf_store store0 /\ wf_item (IEncrypt (Some 1) true) /\ crypto_total COk /\
+  known_crash (1,2) store0 COk (IEncrypt (Some 1) true) = false /\ clean_op (IEncrypt (Some 1) true) = true /\
+  reaches_crypto (1,2) store0 (IEncrypt (Some 1) true) = true /\ step (1,2) store0 COk (IEncrypt (Some 1) true) = Done.
+Proof. repeat split; try reflexivity. repeat constructor. left; reflexivity. Qed.
+
+Example hypotheses_satisfiable_modify :
+  wf_item (IModifyAttribute1 (Some 1) (Build_attr "Name" (Some 0) 0 "new")) /\
+  known_crash (1,4) store0 COk (IModifyAttribute1 (Some 1) (Build_attr "Name" (Some 0) 0 "new")) = false /\
+  step (1,4) store0 COk (IModifyAttribute1 (Some 1) (Build_attr "Name" (Some 0) 0 "new")) = Done.
+Proof. repeat split; reflexivity. Qed.
+
+(* ------------------------------------------------------------------ refuted: one witness per recorded signature *)
+Definition policy_site (f : string) : outcome :=
+  match assoc_s f policy_unknown with Some (Some site) => Crash site | _ => Done end.
+Definition when (n site : string) : outcome := if defect n then Crash site else Done.
+
+Example modify_unknown_name_refuted :
+  step (1,2) store0 COk (IModifyAttribute1 (Some 1) (nm "x-custom")) = policy_site "is_attribute_modifiable_by_client".
+Proof. vm_compute. reflexivity. Qed.
+Example delete_unknown_name_refuted :
+  step (1,2) store0 COk (IDeleteAttribute1 (Some 1) "x-custom" None) = policy_site "is_attribute_applicable_to_object_type".
+Proof. vm_compute. reflexivity. Qed.
+Example locate_unknown_name_refuted :
+  step (1,2) store0 COk (ILocate [nm "x-custom"]) = policy_site "is_attribute_applicable_to_object_type".
+Proof. vm_compute. reflexivity. Qed.
+Example set_unknown_name_refuted :
+  step (2,0) store0 COk (ISetAttribute (Some 1) (nm "Always Sensitive")) = policy_site "is_attribute_multivalued".
+Proof. vm_compute. reflexivity. Qed.
+Example modify_unsupported_multivalued_refuted :
+  step (1,0) store0 COk (IModifyAttribute1 (Some 1) (nm "Cryptographic Parameters")) =
+  when "modify-unsupported-multivalued" "services/server/engine.py:_process_modify_attribute:TypeError".
+Proof. vm_compute. reflexivity. Qed.
+Example mac_stateless_object_refuted :
+  step (1,2) store0 COk (IMAC (Some 3) true true) = when "mac-stateless-object" "services/server/engine.py:_process_mac:AttributeError(state)".
+Proof. vm_compute. reflexivity. Qed.
+Example locate_certificate_algorithm_refuted :
+  step (1,2) store0 COk (ILocate [nm "Cryptographic Algorithm"]) =
+  when "get-attribute-missing-field" "services/server/engine.py:_get_attribute_from_managed_object:AttributeError(cryptographic_algorithm)".
+Proof. vm_compute. reflexivity. Qed.
+Example locate_certificate_length_refuted :
+  step (1,2) [cert2] COk (ILocate [nm "Cryptographic Length"]) =
+  when "get-attribute-missing-field" "services/server/engine.py:_get_attribute_from_managed_object:AttributeError(cryptographic_length)".
+Proof. vm_compute. reflexivity. Qed.
+Example register_certificate_algorithm_refuted :
+  step (1,2) [] COk (IRegister 1 (Some (SecCert 1)) (Some (Build_tattr false [nm "Cryptographic Algorithm"]))) =
+  when "set-attribute-missing-field" "services/server/engine.py:_set_attribute_on_managed_object:AttributeError(cryptographic_algorithm)".
+Proof. vm_compute. reflexivity. Qed.
+Example register_certificate_length_refuted :
+  step (1,2) [] COk (IRegister 1 (Some (SecCert 1)) (Some (Build_tattr false [nm "Cryptographic Length"]))) =
+  when "set-attribute-missing-field" "services/server/engine.py:_set_attribute_on_managed_object:AttributeError(cryptographic_length)".
+Proof. vm_compute. reflexivity. Qed.
+Definition wrap_with (params : bool) : option wrapspec := Some (Build_wrapspec true (Some (Some 1, params)) false false true).
+Definition wrapkey : sobj := Build_sobj 1 "SymmetricKey" 2 true (Some 2) 959 [] [] [] false (Some 1) (Some 3) (Some 128) false.
+Example get_wrap_no_parameters_refuted :
+  step (1,2) [wrapkey; cert2] COk (IGet (Some 1) None false (wrap_with false)) =
+  when "get-wrap-no-parameters" "services/server/engine.py:_process_get:AttributeError(block_cipher_mode)".
+Proof. vm_compute. reflexivity. Qed.
+Example get_wrap_non_key_refuted :
+  step (1,2) [wrapkey; cert2] COk (IGet (Some 2) None false (wrap_with true)) =
+  when "get-wrap-non-key" "services/server/engine.py:_process_get:AttributeError(key_block)".
+Proof. vm_compute. reflexivity. Qed.
+Definition derive_ta : option tattr :=
+  Some (Build_tattr false [Build_attr "Cryptographic Algorithm" None 3 ""; Build_attr "Cryptographic Length" None 128 "";
+                           Build_attr "Cryptographic Usage Mask" None 4 ""]).
+Example derive_no_parameters_refuted :
+  step (1,2) store0 COk (IDeriveKey 2 [1] false false derive_ta) =
+  when "derive-no-parameters" "services/server/engine.py:_process_derive_key:AttributeError(hashing_algorithm)".
+Proof. vm_compute. reflexivity. Qed.
+Example delete_current_name_refuted :
+  step (2,0) store0 COk (IDeleteAttribute2 (Some 1) (Some (Build_attr "Name" None 0 "k1")) None) =
+  when "delete-current-name" "services/server/engine.py:_delete_attribute_from_managed_object:AttributeError(value)".
+Proof. vm_compute. reflexivity. Qed.
+Example register_symmetric_format_refuted :
+  step (1,2) [] COk (IRegister 2 (Some (SecKey 2 2 true 0 3 128)) None) = when "register-convert" "pie/factory.py:_build_pie_key:TypeError".
+Proof. vm_compute. reflexivity. Qed.
+Example register_validate_refuted :
+  step (1,2) [] COk (IRegister 3 (Some (SecKey 3 4 true 0 4 1024)) None) = when "register-convert" "pie/objects.py:validate:ValueError".
+Proof. vm_compute. reflexivity. Qed.
+Example register_wrapping_data_refuted :
+  step (1,2) [] COk (IRegister 2 (Some (SecKey 2 1 true 3 3 128)) None) =
+  when "register-convert" "pie/factory.py:_build_cryptographic_parameters:AttributeError(block_cipher_mode)".
+Proof. vm_compute. reflexivity. Qed.
+Example register_certificate_type_refuted :
+  step (1,2) [] COk (IRegister 1 (Some (SecCert 2)) None) = when "register-convert" "pie/factory.py:_build_pie_certificate:TypeError".
+Proof. vm_compute. reflexivity. Qed.
+Example get_attributes_empty_response_refuted :
+  step (2,0) store0 COk (IGetAttributes (Some 1) ["Certificate Type"]) =
+  when "get-attributes-empty-response" "core/messages/payloads/get_attributes.py:write:InvalidField".
+Proof. vm_compute. reflexivity. Qed.
+(* the crypto-engine findings: the handler reaches the call and lets its exception through *)
+Example crypto_exception_refuted : forall site,
+  step (1,2) store0 (CExc site) (IEncrypt (Some 1) true) = Crash site /\
+  step (1,2) store0 (CExc site) (IDecrypt (Some 1) true) = Crash site /\
+  step (1,2) store0 (CExc site) (IDeriveKey 2 [1] false true derive_ta) = Crash site.
+Proof. intro site. repeat split; vm_compute; reflexivity. Qed.
+
+(* on this tree the witnesses above are crashes, so the full-strength statement is false *)
+Theorem no_crash_refuted : defect "mac-stateless-object" = true -> ~ no_crash_statement.
+Proof.
+  intros Hd H. specialize (H (1,2) store0 COk (IMAC (Some 3) true true)).
+  assert (K : step_crash (1,2) store0 COk (IMAC (Some 3) true true) = true).
+  { unfold step_crash. rewrite mac_stateless_object_refuted. unfold when. rewrite Hd. reflexivity. }
+  rewrite H in K; try discriminate; try reflexivity.
+  - repeat constructor.
+  - left; reflexivity.
+Qed.
+Print Assumptions no_crash_refuted.
